@@ -87,15 +87,15 @@ def field? (pre : String) (s : String) : Option String :=
   if s.startsWith pre then some (s.drop pre.length).toString else none
 
 def handleTrace : List String → String
-  | [np, nm, _mode, w, lost, multi, before, leak, _note] =>
+  | [np, nm, _mode, w, lost, multi, before, after, leak, _note] =>
     match np.toNat?, nm.toNat?, (field? "w=" w).bind parseNats?, (field? "lost=" lost).bind parseNats?,
           (field? "multi=" multi).bind parseMulti?, (field? "before=" before).bind parseNats?,
-          (field? "leak=" leak).bind parseBool? with
-    | some np, some nm, some w, some lost, some multi, some before, some leak =>
-      match Pipe.unexplained ⟨np, nm, w, lost, multi, before, leak⟩ with
+          (field? "after=" after).bind parseNats?, (field? "leak=" leak).bind parseBool? with
+    | some np, some nm, some w, some lost, some multi, some before, some after, some leak =>
+      match Pipe.unexplained ⟨np, nm, w, lost, multi, before, after, leak⟩ with
       | none => "ok"
       | some r => "unexplained:" ++ r
-    | _, _, _, _, _, _, _ => "bad-op"
+    | _, _, _, _, _, _, _, _ => "bad-op"
   | _ => "bad-op"
 
 def handle : List String → String
